@@ -145,6 +145,10 @@ def run_roundtrip(c: Dict[str, Any]) -> Outcome:
                 how = c.get("mw_returns", "same")
                 return message if how == "same" else message.model_copy(deep=(how == "deepcopy"))
 
+            def post_execute(self, message: Any, result: Any) -> None:
+                # the same delivery's message AFTER the task body ran (it may have requeued or failed meanwhile)
+                seen.append(("middleware_after", message.task_id, runs.get(message.task_id, 0), dict(message.labels)))
+
         b.add_middlewares(MW(), SimpleRetryMiddleware(default_retry_count=10, default_retry_label=True, no_result_on_retry=False))
 
         async def t(ctx: Context = TaskiqDepends()) -> Any:
